@@ -67,6 +67,15 @@ func c12Expected(c c12Case) bool {
 	return d.Equal(&want)
 }
 
+func c12NonBoolean(c c12Case) bool {
+	for _, b := range append(append([]int{}, c.Bits...), c.CapBits...) {
+		if b != 0 && b != 1 {
+			return true
+		}
+	}
+	return false
+}
+
 func c12Run(c c12Case) caseResult {
 	var in []*big.Int
 	in = append(in, u64s(c.Leaf)...)
@@ -79,7 +88,10 @@ func c12Run(c c12Case) caseResult {
 	in = append(in, unstrs(c.Cap)...)
 	in = append(in, unstrs(c.Siblings)...)
 	res, _ := gad.Run(eng.Options{Mode: eng.Mode(c.Mode)}, in, c12Fn(c))
-	exp := c12Expected(c)
+	exp := !c12NonBoolean(c) && c12Expected(c)
+	if res.Outcome == eng.Refused && c12NonBoolean(c) {
+		return caseResult{Info: map[string]any{"what": c.What, "outcome": "REFUSED"}} // not accepted: fine
+	}
 	if res.Outcome == eng.Refused {
 		return caseResult{Viol: "refused", Desc: fmt.Sprintf("merkle gadget refused a well-shaped opening (%s): %s", c.What, fmtRes(res))}
 	}
@@ -133,7 +145,7 @@ func genMerkleCase() *rapid.Generator[c12Case] {
 		for _, s := range sib {
 			c.Siblings = append(c.Siblings, hstr(s))
 		}
-		kinds := []string{"honest", "leaf-element", "leaf-element", "sibling", "index-bit", "cap-index-bit", "selected-cap-entry", "unselected-cap-entry", "wrong-cap-slot", "leaf-length"}
+		kinds := []string{"honest", "leaf-element", "leaf-element", "sibling", "index-bit", "cap-index-bit", "selected-cap-entry", "unselected-cap-entry", "wrong-cap-slot", "leaf-length", "index-bit-not-boolean", "cap-index-bit-not-boolean"}
 		c.What = rapid.SampledFrom(kinds).Draw(t, "corruption")
 		switch c.What {
 		case "leaf-element":
@@ -166,6 +178,18 @@ func genMerkleCase() *rapid.Generator[c12Case] {
 			i := rapid.IntRange(0, 3).Draw(t, "bit")
 			c.CapBits = append([]int{}, c.CapBits...)
 			c.CapBits[i] ^= 1
+		case "index-bit-not-boolean": // a single index "bit" replaced by a value outside {0,1}
+			if h == 4 {
+				c.What = "honest"
+				break
+			}
+			i := rapid.IntRange(0, h-5).Draw(t, "bit")
+			c.Bits = append([]int{}, bits...)
+			c.Bits[i] = rapid.SampledFrom([]int{2, 3, 7, 1 << 32, 1<<62 + 1}).Draw(t, "value")
+		case "cap-index-bit-not-boolean":
+			i := rapid.IntRange(0, 3).Draw(t, "bit")
+			c.CapBits = append([]int{}, c.CapBits...)
+			c.CapBits[i] = rapid.SampledFrom([]int{2, 3, 7, 1 << 32}).Draw(t, "value")
 		case "selected-cap-entry":
 			c.Cap = append([]string{}, cap...)
 			c.Cap[slot] = genHashVal().Draw(t, "newcap").String()
@@ -219,7 +243,7 @@ func TestC12(t *testing.T) {
 	s := newSuite("C12")
 	r := s.r
 	defer r.Flush()
-	r.Rule("synthetic trees: height 4..12 (index bits), random leaves of width 1..140 (1 in 4 of width 1..4 to hit the <=3-element shortcut), random/edge indices, random sibling hashes, root placed in the cap slot given by the top four bits; then one corruption drawn from {none, leaf element, leaf length, sibling, index bit (= swapped left/right order at that level), cap-index bit, selected cap entry, unselected cap entry (must still accept), root moved to a wrong cap slot}; plus real openings of the corpus proofs (4 initial trees + 2 fold steps per query round) with and without a corrupted leaf element.  Oracle: ACCEPT <=> reference recomputation equals the selected cap entry.  Non-trivial = any corruption or a real opening; distinct = full case.")
+	r.Rule("synthetic trees: height 4..12 (index bits), random leaves of width 1..140 (1 in 4 of width 1..4 to hit the <=3-element shortcut), random/edge indices, random sibling hashes, root placed in the cap slot given by the top four bits; then one corruption drawn from {none, leaf element, leaf length, sibling, index bit (= swapped left/right order at that level), cap-index bit, one index or cap-index bit replaced by a value outside {0,1}, selected cap entry, unselected cap entry (must still accept), root moved to a wrong cap slot}; plus real openings of the corpus proofs (4 initial trees + 2 fold steps per query round) with and without a corrupted leaf element.  Oracle: ACCEPT <=> reference recomputation equals the selected cap entry.  Non-trivial = any corruption or a real opening; distinct = full case.")
 	r.Assume("reference PoseidonBN128 (C10)")
 	s.on("merkle", func(b json.RawMessage) caseResult {
 		c := unmarshal[c12Case](b)
